@@ -622,6 +622,8 @@ class UGen(SynthObject, aob.AbstractObject):
         return MulAdd.new(self, mul, add)
 
     def range(self, lo=0.0, hi=1.0):
+        # List bounds expand as in the constructors.
+        lo, hi = (ChannelList(x) if isinstance(x, list) else x for x in (lo, hi))
         if type(self).signal_range() == 'bipolar':
             mul = (hi - lo) * 0.5
             add = mul + lo
@@ -646,6 +648,8 @@ class UGen(SynthObject, aob.AbstractObject):
         return self.range(0, mul)
 
     def bipolar(self, mul=1):
+        if isinstance(mul, list):
+            mul = ChannelList(mul)
         return self.range(-mul, mul)
 
     def clip(self, lo=0.0, hi=1.0):
